@@ -502,21 +502,20 @@ Definition total_len (msgs : list (asdu * Z * list Z)) : Z := sum (map (fun m =>
 Theorem upload_offsets c e now : 0 <= f_timeout c ->
   forall msgs s, Forall (fun m => is_segment_msg c (fst (fst m)) (snd (fst m)) (snd m)) msgs ->
   st s = Receive -> rcv s = true -> last s = now ->
-  exists s', run c e (map (fun m => ERx 0 (fst (fst m))) msgs) s now [] = ROk s' now (offsets_obs (off s) msgs) /\
-             st s' = Receive /\ rcv s' = true /\ last s' = now /\ off s' = off s + total_len msgs /\ nos s' = nos s /\ size s' = size s.
+  run c e (map (fun m => ERx 0 (fst (fst m))) msgs) s now [] =
+  ROk (set_last (set_sec s (nos s) (off s + total_len msgs) (size s)) now) now (offsets_obs (off s) msgs).
 Proof.
   intros Ht. induction msgs as [|[[a n] d] msgs IH]; intros s HF Hs Hr Hl.
-  - exists s. cbn. unfold total_len. cbn. repeat split; try assumption; lia.
+  - cbn. unfold total_len. cbn. f_equal. destruct s. cbn in *. subst. unfold set_last, set_sec. cbn. f_equal. lia.
   - inversion_clear HF as [|? ? Hm HF']. destruct Hm as (Htid & ioa & n0 & n1 & Hdec). cbn [fst snd] in *.
     cbn [map run fst]. unfold handle_asdu. rewrite Htid. cbn [Z.leb Z.compare Pos.compare Pos.compare_cont andb Z.eqb Pos.eqb].
     rewrite Hs. cbn [fstate_eqb negb andb]. unfold timed_out. rewrite (no_timeout c now (last s) Ht Hl).
     unfold h_segment. rewrite Hs. cbn [fstate_eqb]. rewrite Hdec. cbn [app fld nth skipn]. rewrite Hr. cbn [app].
     rewrite run_acc.
-    destruct (IH (set_last (set_sec s (nos s) (off s + len d) (size s)) now)) as (s' & R & A1 & A2 & A3 & A4 & A5 & A6);
-      try assumption; try reflexivity.
-    cbn [set_last set_sec off nos size] in R, A4, A5, A6. rewrite R.
-    exists s'. split; [reflexivity|]. repeat split; try assumption.
-    unfold total_len in *. cbn [map sum fold_right snd]. fold (sum (map (fun m : asdu * Z * list Z => len (snd m)) msgs)). lia.
+    rewrite (IH (set_last (set_sec s (nos s) (off s + len d) (size s)) now)); try assumption; try reflexivity.
+    cbn [offsets_obs snd fst app]. f_equal.
+    unfold total_len. cbn [map sum fold_right snd]. fold (sum (map (fun m : asdu * Z * list Z => len (snd m)) msgs)).
+    destruct s. unfold set_last, set_sec. cbn. f_equal. lia.
 Qed.
 
 (* ------------------------------------------------------------------ refutations *)
